@@ -446,6 +446,13 @@ def simple_jobs(src, tagp, clang=True):
 
 
 def fraction_attr(kind, op, tag, diag):
+    if kind == "FrCtad":
+        # fraction{floating}: the deduction clause is C15's, the contract for the deduced component type C17's
+        if diag is None:
+            return ["C15", "C17"]
+        return ["C15"] if diag in ("wrong_type", "initializer_not_held") else ["C17"]
+    if kind == "FrCtadInt":
+        return ["C15"]
     return ["C17"] if kind == "FrFromFloat" else ["C16"]
 
 
@@ -931,20 +938,26 @@ CHECKS = {
                "when the expansion has <= 18 significant digits and the buffer has the static capacity; to_string, "
                "to_chars_static and operator<< equal to_chars.",
                "exactness is only demanded at full capacity (deciding 'fits the buffer' for shorter buffers is not modelled)"),
-    "C15": dict(chk(["parse"], [],
+    "C15": dict(chk(["parse", "fraction"], [],
                "events = (a) run-time cnl::_impl::parse<T>(token), T = int64 / wide_integer<200> / wide_integer<1000>, tokens of "
                "every length up to two accumulation chunks + 2 per base (18 dec / 15 hex / 21 oct / 63 bin digits per chunk), "
                "leading digit in {1, base/2-1, base/2, base-1}, fills {0.., max.., alternating, random}, +/- sign, separators at "
                "chunk edges; (b) compile-time literals _c, _cnl, _cnl2, _wide in generated translation units (the program "
                "under test contains the tokens; lengths around every chunk boundary, VERIF_SEED-chosen digits); (c) "
                "make_elastic_integer / make_elastic_scaled_integer / make_static_integer / make_static_number / "
-               "make_scaled_integer from constants (boundary-rich set) and from run-time values; non-trivial = all",
+               "make_scaled_integer from constants (boundary-rich set) and from run-time values; class template argument "
+               "deduction through the library's deduction guides (cnl::fraction{x} for float / double / long double x: every "
+               "2^k, 2^k +- 1 up to the significand width, random integral values of every bit length, small ratios; "
+               "cnl::fraction{n} and cnl::fraction{n, d} for 8..128-bit integers); non-trivial = all",
                "TLA+ spec (SemParse: tokeniser with base prefixes and separators, Horner value in unbounded integers, "
-               "used-digits / trailing-zeros rules for deduced types) evaluated by TLC on every recorded event (trace validation)",
+               "used-digits / trailing-zeros rules for deduced types; SemFraction.JudgeFrCtad for deduction guides) evaluated by "
+               "TLC on every recorded event (trace validation)",
                "parse and literals must yield exactly the token's value in a type wide enough; _cnl/_cnl2 significand x "
                "radix^exponent equals the decimal token exactly with no factor of the radix left in the significand; factories "
-               "hold the initializer exactly with digits = used digits and exponent = trailing zero bits for constants.",
-               "class template argument deduction is not judged: this version of the library has no deduction guides for "
+               "hold the initializer exactly with digits = used digits and exponent = trailing zero bits for constants; a "
+               "fraction deduced from a floating-point value has signed components with at least the format's significand digits "
+               "and holds every integral initializer exactly.",
+               "class template argument deduction is judged for the deduction guides the library has (fraction); it has none for "
                "constants (scaled_integer{v} is the default specialisation's converting constructor); tokens whose value does "
                "not fit the run-time target type are skipped"), extra=parse_extra),
     "C20": chk(["math"], [],
